@@ -26,6 +26,8 @@ from typing import Any, Callable, Iterable
 VERIF = os.path.dirname(os.path.dirname(os.path.abspath(__file__)))
 REPO = os.environ.get("VERIF_REPO_ROOT", "/repo")
 EVIDENCE_SCHEMA = "/root/.vp/EVIDENCE.schema.json"
+# mutant/scratch runs must not overwrite the committed evidence: VERIF_OUT redirects evidence/ and replay/
+OUT = os.environ.get("VERIF_OUT", VERIF)
 
 
 def bind_repo() -> None:
@@ -216,14 +218,14 @@ def finish(ctx: Ctx) -> int:
             seen_known.append((k, v))
         else:
             new.append(v)
-    os.makedirs(os.path.join(VERIF, "replay"), exist_ok=True)
-    os.makedirs(os.path.join(VERIF, "evidence"), exist_ok=True)
+    os.makedirs(os.path.join(OUT, "replay"), exist_ok=True)
+    os.makedirs(os.path.join(OUT, "evidence"), exist_ok=True)
     for k, v in seen_known:
         print(f"KNOWN-FINDING: property={ctx.prop} {k['what']} [signature={k['signature']} occurrences={v['occurrences']}]")
     for n in tot.notes:
         print("NOTE:", n)
     for i, v in enumerate(new):
-        path = os.path.join(VERIF, "replay", f"{ctx.prop}-{i + 1}.json")
+        path = os.path.join(OUT, "replay", f"{ctx.prop}-{i + 1}.json")
         with open(path, "w") as fh:
             json.dump({"property": ctx.prop, **v}, fh, indent=1)
         print(f"VIOLATION property={ctx.prop} replay={path}")
@@ -251,7 +253,7 @@ def finish(ctx: Ctx) -> int:
         "wall_s": round(wall, 3),
         "violations": len(new),
     }
-    evp = os.path.join(VERIF, "evidence", f"{ctx.prop}.json")
+    evp = os.path.join(OUT, "evidence", f"{ctx.prop}.json")
     with open(evp, "w") as fh:
         json.dump(ev, fh, indent=1, sort_keys=True)
     ok_schema = validate_evidence(evp)
